@@ -1,5 +1,5 @@
 ------------------------------ MODULE MCSetMap ------------------------------
 (* The contract on its own: its cleanup clauses are consequences of the per-call definitions. *)
 EXTENDS SetMap
-Bound == nid <= 7
+Bound == nid <= 5
 =============================================================================
